@@ -25,15 +25,20 @@ func init() {
 }
 
 func (b Enforce) Apply(opt *Option, profile string) (string, error) {
+	// Apply to each block header (main profile, sub-profiles, hats) on its own
+	return regHeaderLine.ReplaceAllStringFunc(profile, unsetComplain), nil
+}
+
+func unsetComplain(profile string) string {
 	matches := regFlags.FindStringSubmatch(profile)
 	if len(matches) == 0 {
-		return profile, nil
+		return profile
 	}
 
 	flags := strings.Split(matches[1], ",")
 	idx := slices.Index(flags, "complain")
 	if idx == -1 {
-		return profile, nil
+		return profile
 	}
 	flags = slices.Delete(flags, idx, idx+1)
 	strFlags := "{\n"
@@ -43,5 +48,5 @@ func (b Enforce) Apply(opt *Option, profile string) (string, error) {
 
 	// Remove all flags definition, then set new flags
 	profile = regFlags.ReplaceAllLiteralString(profile, "")
-	return regProfileHeader.ReplaceAllLiteralString(profile, strFlags), nil
+	return regProfileHeader.ReplaceAllLiteralString(profile, strFlags)
 }
